@@ -64,6 +64,12 @@ def c17_scenes(rng, thorough):
         [{"src": "u.bin", "dst": "u.bin.lzma", "dir": "c", "fmt": "lzma"}, {"src": "v.txt", "dst": "v.txt.lzma", "dir": "c", "fmt": "lzma"}, {"src": "w.bin", "dst": "w.bin.lzma", "dir": "c", "fmt": "lzma"}])
     add("decompress-two-good", [f("r1.bin.xz", cls="random", n=40000, compress_args=["-0"]), f("r2.txt.xz", cls="text", n=9000, compress_args=["-0"])], ["-d", "r1.bin.xz", "r2.txt.xz"],
         [{"src": "r1.bin.xz", "dst": "r1.bin", "dir": "d"}, {"src": "r2.txt.xz", "dst": "r2.txt", "dir": "d"}])
+    # an operand that only earns a warning (a directory) next to the real work, with --no-warn: a failure
+    # elsewhere in the same run must still give a non-zero exit status
+    add("decompress-corrupt-warn-Q", [f("z.txt.xz", n=20000, compress_args=["-0"], corrupt_seed=rng.getrandbits(20) + 1)], ["-dQ"] + rng.choice([["z.txt.xz", "zdir"], ["zdir", "z.txt.xz"]]),
+        [{"src": "z.txt.xz", "dst": "z.txt", "dir": "d", "invalid": True}], specials=[{"name": "zdir", "kind": "dir"}])
+    add("compress-warn-Q", [f("j.bin", cls="random", n=30000)], ["-Q"] + rng.choice([["j.bin", "jdir"], ["jdir", "j.bin"]]),
+        [{"src": "j.bin", "dst": "j.bin.xz", "dir": "c"}], specials=[{"name": "jdir", "kind": "dir"}])
     add("compress-stdout", [f("p.txt")], ["-c", "p.txt"], [{"src": "p.txt", "dst": None, "dir": "c", "keep": True}], stdout="file")
     add("stdin-stdout", [f("i.txt")], [], [{"src": "i.txt", "dst": None, "dir": "c", "keep": True}], stdin_file="i.txt", stdout="file")
     rng.shuffle(scenes)
@@ -207,8 +213,11 @@ def judge_c17(case, res):
     meta_fail = False
     unlink_fail = False
     signalled = False
+    specials = {"path=" + sp["name"] for sp in case.get("specials", [])}
     for k, e in fired:
         if k in ("errno", "eagain"):
+            if any(e["arg"].endswith(sp) for sp in specials):
+                continue   # the fault hit an operand that is only skipped with a warning anyway (a directory)
             if (e["call"], e["role"]) in DATA_CALLS:
                 failing_data = True
             elif e["call"] in ("fchown", "fchmod", "futimens"):
